@@ -643,6 +643,7 @@ def extract(build, exempt=None, deny=(), accept=None):
     comp_of = {n: i for i, c in enumerate(g.comps) for n in c}
     g.comp_of = comp_of
     g.nodes = sorted(cyc)
+    g.all_edges = edges            # every call edge of the module (cut and exempted edges removed), for cgstack's reachability certificate
     g.edges = {(a, b): k for (a, b), k in edges.items() if a in cyc and b in cyc and comp_of[a] == comp_of[b]}
     # guards from source
     src = directives_only(build)
